@@ -67,7 +67,8 @@ def run(ctx, out):
     quick = ctx.tier == "quick"
     out.rule = ("source trees with links to files, to directories, to links (chains up to 30), relative and absolute, inside and "
                 "outside the source, dangling (top level and deep), two-link cycles, self links and links to an ancestor; "
-                "-r -L with both drivers; destination compared with an independent resolver (os.stat/os.listdir following links) "
+                "-r -L with both drivers; also link OPERANDS (to file / directory, chains, absolute, dangling, cyclic; alone, among "
+                "several sources, onto a new name); destination compared with an independent resolver (os.stat/os.listdir following links) "
                 "and the Gallina walk on the resolved tree; non-trivial = tree contains a link; distinct = (link mix, driver, k)")
     d0 = ctx.work.fresh("c13")
     reps = 2 if quick else 25
@@ -109,6 +110,89 @@ def run(ctx, out):
                 batch.append((rep, tenc, bad))
                 out.sample(dict(links=kind, driver=driver, exit=r.exit), limit=6)
                 shutil.rmtree(d, ignore_errors=True)
+    # the OPERAND itself is a link (to a file, to a directory, through chains, relative / absolute, alone or among other
+    # sources): it is copied under ITS OWN name (cp's mapping rule names the destination entry after the source as written),
+    # as what it resolves to; a dangling / cyclic operand fails
+    kinds2 = ["to-dir", "to-file", "chain-dir", "chain-file", "abs-dir", "abs-file", "dangling", "cycle"]
+    for rep_i in range(1 if quick else 6):
+        for kind in kinds2:
+            for driver in ("parfile", "parblock"):
+                for form in ("into-dir", "multi", "new-name"):
+                    if quick and form == "new-name" and kind not in ("to-dir", "to-file"):
+                        continue
+                    k += 1
+                    d = os.path.join(d0, "o%d" % k)
+                    os.makedirs(os.path.join(d, "ops", "realdir", "sub"))
+                    open(os.path.join(d, "ops", "realdir", "a.txt"), "wb").write(b"a" * rng.randrange(1, 3000))
+                    open(os.path.join(d, "ops", "realdir", "sub", "b.bin"), "wb").write(b"b" * rng.randrange(1, 70000))
+                    open(os.path.join(d, "ops", "realfile.bin"), "wb").write(b"r" * rng.randrange(1, 50000))
+                    open(os.path.join(d, "ops", "plain.txt"), "wb").write(b"plain")
+                    isdir = "dir" in kind
+                    real = os.path.join(d, "ops", "realdir" if isdir else "realfile.bin")
+                    link = os.path.join(d, "ops", "the_link")
+                    if kind.startswith("to-"):
+                        os.symlink(os.path.basename(real), link)
+                    elif kind.startswith("chain-"):
+                        os.symlink(os.path.basename(real), os.path.join(d, "ops", "hop1"))
+                        os.symlink("hop1", os.path.join(d, "ops", "hop2"))
+                        os.symlink("hop2", link)
+                    elif kind.startswith("abs-"):
+                        os.symlink(real, link)
+                    elif kind == "dangling":
+                        os.symlink("no-such-entry", link)
+                    else:
+                        os.symlink("the_link2", link)
+                        os.symlink("the_link", os.path.join(d, "ops", "the_link2"))
+                    bad = kind in ("dangling", "cycle")
+                    dst = os.path.join(d, "dst")
+                    if form == "new-name":
+                        os.mkdir(dst)
+                        target = os.path.join(dst, "fresh")
+                        srcs = ["ops/the_link"]
+                        argv = [ctx.bins["xcp"], "-r", "-L", "--driver", driver, "-w", str(rng.choice([1, 2, 4]))] + srcs + [target]
+                        outs = {target: real}
+                    else:
+                        os.mkdir(dst)
+                        srcs = ["ops/the_link"] if form == "into-dir" else ["ops/plain.txt", "ops/the_link"]
+                        if rng.random() < 0.5:
+                            srcs = [os.path.join(d, x) for x in srcs]
+                        argv = [ctx.bins["xcp"], "-r", "-L", "--driver", driver, "-w", str(rng.choice([1, 2, 4]))] + srcs + [dst]
+                        outs = {os.path.join(dst, "the_link"): real}
+                        if form == "multi":
+                            outs[os.path.join(dst, "plain.txt")] = os.path.join(d, "ops", "plain.txt")
+                    r = xcp.run_plain(argv, d)
+                    rep = dict(operand_link=kind, form=form, driver=driver, argv=argv[1:], exit=r.exit, stderr=r.stderr[-300:])
+                    out.case(("deref-operand", kind, form, driver, k), nontrivial=True)
+                    out.count("operand_" + kind)
+                    if bad:
+                        if r.exit == 0:
+                            out.violation("a dangling / cyclic link OPERAND was skipped: exit 0", rep)
+                    elif r.exit != 0:
+                        out.violation("-L copy of a link operand that resolves failed: exit %d" % r.exit, rep)
+                    else:
+                        problem = None
+                        for tp, rp in outs.items():
+                            if os.path.islink(tp) or not os.path.lexists(tp):
+                                problem = "%s is %s" % (os.path.relpath(tp, d), "a symbolic link" if os.path.islink(tp) else "missing (the link operand has no counterpart under its own name)")
+                                break
+                            if os.path.isdir(rp):
+                                for root, dirs, files in os.walk(rp):
+                                    for f in files:
+                                        rel = os.path.relpath(os.path.join(root, f), rp)
+                                        try:
+                                            same = open(os.path.join(tp, rel), "rb").read() == open(os.path.join(root, f), "rb").read()
+                                        except OSError:
+                                            same = False
+                                        if not same:
+                                            problem = "%s differs / is missing" % os.path.relpath(os.path.join(tp, rel), d)
+                            elif not os.path.isfile(tp) or open(tp, "rb").read() != open(rp, "rb").read():
+                                problem = "%s does not hold the target's bytes" % os.path.relpath(tp, d)
+                        extra = sorted(set(os.listdir(dst)) - {os.path.basename(t) for t in outs} - {"fresh"})
+                        if not problem and extra:
+                            problem = "unexpected entries in the destination: %s" % extra
+                        if problem:
+                            out.violation("exit 0 but " + problem, rep)
+                    shutil.rmtree(d, ignore_errors=True)
     if ctx.model_ok:
         models = treecase.model_walk([(False, True, [], [], b[1]) for b in batch])
         for (rep, tenc, bad), m in zip(batch, models):
